@@ -1,5 +1,5 @@
 \* exhaustive: the design with up to two create requests in flight satisfies the contract at every quiescent point
-\* (4 specification shapes incl. the partially overlapping pair, one target, user-role flag, a store fault in either section of a create, task limit, delete, restart; depth 5)
+\* (4 specification shapes incl. the partially overlapping pair, one target, user-role flag, a store fault in either section of a create, task limit, delete, restart; depth 4)
 SPECIFICATION Spec
 CHECK_DEADLOCK FALSE
 VIEW view
@@ -16,7 +16,7 @@ CONSTANTS
   NoAutos = {FALSE}
   Faults = {0, 1, 4}
   DelFaults = {0}
-  MaxOps = 5
+  MaxOps = 4
   MaxLive = 3
   WithRestart = TRUE
   SimPrint = FALSE
